@@ -44,6 +44,8 @@ meta = {"property": prop, "name": name, "diff": os.path.basename(diff), "ran": [
 try:
     # demo on the clean tree first
     r0 = sh(["sh", "./RUNTESTS.sh"], cwd=wt, timeout=1200)
+    if "BUILD FAILED" in r0.stdout:
+        r0 = sh(["sh", "./RUNTESTS.sh"], cwd=wt, timeout=1200)
     meta["tests_clean"] = r0.stdout.strip().replace("\n", " ")
     d0 = sh(["timeout", "120", "sh", os.path.join(demo, "demo.sh"), wt + "/src/flex", wt + "/src"],
             cwd=demo)
